@@ -100,3 +100,13 @@ Theorem C06_layout_independent : forall d (dk1 dk2 : str -> kind) items in1 in2 
   exists x1 x2, parseSchema d 0 ix1 bi in1 = POk x1 /\ parseSchema d 0 ix2 bi in2 = POk x2 /\ erase_sdoc x1 = erase_sdoc x2.
 Proof. exact schema_layout_independent. Qed.
 Print Assumptions C06_layout_independent.
+
+(* ... and unambiguous: one text is not the token sequence of two different item lists (whichever way
+   their descriptions are taken to be written). *)
+Theorem C06_grammar_unambiguous : forall d (dk1 dk2 : str -> kind) items1 items2 input bi,
+  (forall s, dk1 s = String_ \/ dk1 s = BlockString) -> (forall s, dk2 s = String_ \/ dk2 s = BlockString) ->
+  Forall (item_wok d) items1 -> Forall (item_wok d) items2 -> (items1 <> [] \/ d F_S7 = true) -> (items2 <> [] \/ d F_S7 = true) ->
+  toks d input (flat_map (flat_item dk1) items1) -> toks d input (flat_map (flat_item dk2) items2) ->
+  erase_sdoc (with_builtin bi (sdoc_of items1)) = erase_sdoc (with_builtin bi (sdoc_of items2)).
+Proof. exact schema_unambiguous. Qed.
+Print Assumptions C06_grammar_unambiguous.
